@@ -73,6 +73,18 @@ func predC16(c *vk.Ctx, o *hubObs) {
 		}
 		return
 	}
+	if (o.Op[0] == "refresh" || o.Op[0] == "bgload") && o.Cfg.CrlOn() && sig != "verify" && o.Fetched != nil {
+		// "... is accepted and keeps being refreshed even when its signer cannot be verified": a pass contacts the origin of every
+		// CRL that was taken in (model and code agreed on every observable up to this step)
+		for _, l := range []string{"D", "U"} {
+			if (l == "U" && o.Cfg.Conf != "url") || o.Exp.Fetch[l] == 0 || o.Fetched[l] > 0 {
+				continue
+			}
+			c.Violation(fmt.Sprintf("%s:crl-no-longer-refreshed:loc=%s:intake=%s", sig, l, lastIntake(o)),
+				fmt.Sprintf("under %s the %s pass did not fetch location %s again although that CRL had been taken in; cfg=%s", sig, o.Op[0], l, o.Cfg), hubReplay(o))
+		}
+		return
+	}
 	if o.Op[0] != "handshake" || !o.Cfg.CrlOn() || !realDecided(o.Verdict) || o.Exp.Cause != "crl" {
 		return
 	}
@@ -148,6 +160,12 @@ func predC03(c *vk.Ctx, o *hubObs) {
 	}
 	expRej := o.Exp.Verdict != "accept"
 	realRej := o.Verdict != "accept"
+	if o.Cfg.Ocsp == "dyncache" && expRej != realRej {
+		// remembering an OCSP answer is optional: the verdict of an implementation that asks the responder again is the promise too
+		if o.Exp.Alt == "any" || (o.Exp.Alt != "") && (o.Exp.Alt != "accept") == realRej {
+			return
+		}
+	}
 	if expRej != realRej {
 		c.Violation(fmt.Sprintf("mode=%s:expected-%s-got-%s:cause=%s", o.Cfg.Mode, o.Exp.Verdict, o.Verdict, o.Exp.Cause),
 			fmt.Sprintf("mode %q promises %q for %s (OCSP=%s aia_strict=%v, cdp_strict=%v) but the handshake returned %q (%s); cfg=%s",
@@ -174,6 +192,19 @@ func c03Histories(c *vk.Ctx) {
 		cfgs = append(cfgs, HubCfg{Mode: mode, Sig: "none", Strict: false, Fetch: "actively", Disk: mode == "prefer_crl", Conf: "none", Ocsp: "good"})
 	}
 	hubFocus(c, cfgs, c.Pick(360, 6000), func(d hubDoc) bool { return d.Signer == "A" && d.Q != "down" && d.Q != "critext" }, RandomShape, predC03)
+	// a responder that changes its behaviour over time (good, revoked, no answer), answers remembered or not, lenient and strict:
+	// what an earlier handshake learnt - or failed to learn - from OCSP decides nothing later on unless it is a still valid
+	// authentic answer
+	var dyn []HubCfg
+	for i, mode := range []string{"prefer_ocsp", "ocsp_only", "prefer_crl", "unset"} {
+		for j, oc := range []string{"dyncache", "dyn"} {
+			if !c.Thorough() && (i+j+int(c.Seed))%2 == 1 && mode != "prefer_ocsp" {
+				continue
+			}
+			dyn = append(dyn, HubCfg{Mode: mode, Sig: "none", Strict: false, Fetch: "actively", Disk: false, Conf: "none", Ocsp: oc, Aia: (i+j)%2 == 1})
+		}
+	}
+	hubFocus(c, dyn, c.Pick(500, 8000), func(d hubDoc) bool { return d.Signer == "A" && d.Q == "valid" && len(d.Keys) <= 1 }, RandomShape, predC03)
 }
 
 // C03 — mode composition: the complete one-handshake table.
@@ -388,6 +419,20 @@ func C16(c *vk.Ctx) {
 
 // ---- C15 (API level): a list that a refresh pass or a background load took in is in force ----------
 func predC15hub(c *vk.Ctx, o *hubObs) {
+	if (o.Op[0] == "refresh" || o.Op[0] == "bgload") && o.Cfg.CrlOn() && o.Fetched != nil {
+		// the statement itself: a pass fetches every CRL the validator knows. Model and code agreed on every observable up to this
+		// step (a walk ends at its first difference), so the locations the model's pass fetches are known to the code as well.
+		for _, l := range []string{"D", "U"} {
+			if l == "U" && o.Cfg.Conf != "url" {
+				continue // a file is not observable at an origin
+			}
+			if o.Exp.Fetch[l] > 0 && o.Fetched[l] == 0 {
+				c.Violation(fmt.Sprintf("known-crl-not-fetched-by-pass:loc=%s:pass=%s:sig=%s:fetch=%s", l, o.Op[0], o.Cfg.Sig, o.Cfg.Fetch),
+					fmt.Sprintf("the %s pass did not contact the origin of location %s although the validator knows that CRL (it was taken in earlier in this history); cfg=%s", o.Op[0], l, o.Cfg), hubReplay(o))
+			}
+		}
+		return
+	}
 	if o.Op[0] != "handshake" || !o.Cfg.CrlOn() || !realDecided(o.Verdict) {
 		return
 	}
